@@ -43,11 +43,24 @@ def lean_sources():
                 out.append(os.path.join(d, f))
     return sorted(out)
 
-def forbidden_hits():
-    hits = []
-    for p in lean_sources():
-        if os.path.basename(p).startswith('Audit'):
+def import_closure(mod):
+    """files of this project that `mod` imports, transitively"""
+    seen, todo = set(), [mod]
+    while todo:
+        m = todo.pop()
+        if m in seen:
             continue
+        p = os.path.join(LEAN, *m.split('.')) + '.lean'
+        if not os.path.exists(p):
+            continue
+        seen.add(m)
+        for mm in re.finditer(r'^import\s+(YalafiVerif[\w.]*)', open(p).read(), re.M):
+            todo.append(mm.group(1))
+    return sorted(os.path.join(LEAN, *m.split('.')) + '.lean' for m in seen)
+
+def forbidden_hits(mod):
+    hits = []
+    for p in import_closure(mod):
         s = strip_comments(open(p).read())
         for m in FORBIDDEN.finditer(s):
             hits.append('%s: %s' % (os.path.relpath(p, LEAN), m.group(0).strip()))
@@ -86,7 +99,7 @@ def prepare(prop, obligations):
             for n in obligations:
                 res['audit'][n] = None
             return res
-        hits = forbidden_hits()
+        hits = forbidden_hits(mod)
         if hits:
             res['build_ok'] = False
             res['problems'].append('forbidden constructs in Lean sources: ' + '; '.join(hits[:10]))
